@@ -676,7 +676,7 @@ where
                                 .reason_code(DisconnectReasonCode::KeepAliveTimeout)
                                 .build()
                             {
-                                events.extend(self.process_send_v5_0_disconnect(disconnect));
+                                events.extend(self.send_generated_disconnect(disconnect));
                             }
                         }
                     }
@@ -701,7 +701,7 @@ where
                                 .reason_code(DisconnectReasonCode::KeepAliveTimeout)
                                 .build()
                             {
-                                events.extend(self.process_send_v5_0_disconnect(disconnect));
+                                events.extend(self.send_generated_disconnect(disconnect));
                             }
                         }
                     }
@@ -2446,7 +2446,7 @@ where
                 .build()
                 .unwrap();
             // Send disconnect packet directly without generic constraints
-            events.extend(self.process_send_v5_0_disconnect(disconnect_packet));
+            events.extend(self.send_generated_disconnect(disconnect_packet));
             events.push(GenericEvent::NotifyError(MqttError::PacketTooLarge));
             return events;
         }
@@ -3710,6 +3710,24 @@ where
         events
     }
 
+    /// Send a DISCONNECT generated by the library itself. If it does not fit the peer's
+    /// Maximum Packet Size the transport is closed without it.
+    fn send_generated_disconnect(
+        &mut self,
+        disconnect: v5_0::Disconnect,
+    ) -> Vec<GenericEvent<PacketIdType>> {
+        if self.status == ConnectionStatus::Connected
+            && !self.validate_maximum_packet_size_send(disconnect.size())
+        {
+            let mut events = Vec::new();
+            self.status = ConnectionStatus::Disconnected;
+            self.cancel_timers(&mut events);
+            events.push(GenericEvent::RequestClose);
+            return events;
+        }
+        self.process_send_v5_0_disconnect(disconnect)
+    }
+
     fn handle_v3_1_1_error(e: MqttError, events: &mut Vec<GenericEvent<PacketIdType>>) {
         events.push(GenericEvent::RequestClose);
         events.push(GenericEvent::NotifyError(e));
@@ -3720,7 +3738,7 @@ where
             .reason_code(e.into())
             .build()
             .unwrap();
-        events.extend(self.process_send_v5_0_disconnect(disconnect));
+        events.extend(self.send_generated_disconnect(disconnect));
         events.push(GenericEvent::NotifyError(e));
     }
 
